@@ -104,6 +104,8 @@ def run_property(prop, tier, procs=16, only=None, tv=True):
     rnd = random.Random(seed)
     rnd.shuffle(jobs)                       # VERIF_SEED only changes the order in which shapes are visited
     jobs.sort(key=lambda j: -j.get('cost', 1))
+    for k, j in enumerate(jobs):            # solver cross-check on a spread of 24 harness instances per run
+        j.setdefault('xcheck', 1 if (k * 24) // max(1, len(jobs)) != ((k - 1) * 24) // max(1, len(jobs)) or k == 0 else 0)
     recs = []
     tv_rec = None
     deadline = t0 + getattr(hm, 'BUDGET_S', {}).get(tier, 1500 if tier == 'quick' else 7200)
@@ -271,7 +273,7 @@ def report(prop, tier, seed, recs, claimed, tv_rec, pre, setup_errors, hm, wall)
             solver_cross_check=dict(queries_redecided=sum(r.get('xcheck', {}).get('done', 0) for r in recs),
                                     agreed=sum(r.get('xcheck', {}).get('agree', 0) for r in recs),
                                     skipped_other_solver_no_verdict=sum(r.get('xcheck', {}).get('skipped', 0) for r in recs),
-                                    tools='/usr/bin/z3 4.8.12, cvc5 1.0 binary on the SMT-LIB2 dump of one obligation per harness instance'),
+                                    tools='/usr/bin/z3 4.8.12, cvc5 1.0 binary (5 s each) on the SMT-LIB2 dump of one obligation of each of 24 harness instances spread over the job list'),
             translator_validation_runs=(tv_rec or {}).get('runs', 0),
             translator_validated_kernels=(tv_rec or {}).get('kernels', []),
             oracle_self_check=pre.get('oracle_checked', 0), pre=pre.get('info', {}),
